@@ -16,6 +16,9 @@ def run(ctx, rep):
     termination.rule_prototype_chains_acyclic(ctx, rep, "C01-R8b")
     frontend.rule_parse_polls_deadline(ctx, rep, "C01-R10")
     limits.rule_nested_interpreter_polls(ctx, rep, "C01-R11")
+    from ..rules import isolation
+
+    isolation.rule_running_interpreter_handed_back(ctx, rep, "C01-R12")
     rep.undecided += [
         "size of the overrun in seconds (runtime quantity)",
         "cost of a single native call on bounded operands (excluded by the property's scope)",
